@@ -6,7 +6,10 @@ RULE = ("random histories (quick: 12 steps, thorough: up to 40) over up to 6 sim
         "drawn from the whole public alphabet (construction from lists/dicts/vectors, copy, slice, mask, column selection, "
         ">>, <<, T, joins, aggregate, window, sort, arithmetic, comparison, fillna, column views by attribute / name / cols(), "
         "attribute assignment, renames, vector and table item assignment in every key form, fingerprint, repr, drop, gc); "
-        "after a derivation the next step is with probability 0.55 an in-place write through one of the objects involved. "
+        "after a derivation the next step is with probability 0.55 an in-place write through one of the objects involved; plus "
+        "~150 scripted histories: every derivation with a degenerate partner or key (its own empty slice, itself, an empty vector "
+        "or table, whole-range slice, all-True mask, all columns selected, double transpose, identity arithmetic) followed by "
+        "every write form through the result and through the source. "
         "After EVERY step every live handle is observed through the public API (elements, dtype, name per column) and must "
         "show what the Lean heap model shows. non-trivial = the history contains at least one accepted in-place write "
         "while at least two handles are live")
@@ -78,7 +81,63 @@ def slim(o):
     return {"k": o["k"]}
 
 
+def degenerate_histories():
+    """scripted: every derivation with a degenerate partner or a degenerate key (zero rows, zero-length vector, empty selection,
+    whole-range slice, all-True mask, a table joined / stacked / appended with itself or with its own empty slice), followed by
+    every write form through the result and through the source.  A derivation that hands back an operand instead of a new object
+    only in such a corner shows up as a non-local write here."""
+    T0 = {"op": "newtab", "dst": 0, "cols": [["a", [0, 1, 2]], ["b", ["a", "a", "a"]]], "form": "list"}
+    V0 = {"op": "newvec", "dst": 0, "vals": [0, 1, 2], "name": "a"}
+    E = {"op": "slice", "dst": 1, "src": 0, "key": ["slice", 0, 0, None]}            # zero rows / empty vector
+    FULL = ["slice", None, None, None]
+    tab_derives = [
+        [E, {"op": "appendt", "dst": 2, "a": 0, "b": 1}], [E, {"op": "appendt", "dst": 2, "a": 1, "b": 0}],
+        [{"op": "appendt", "dst": 2, "a": 0, "b": 0}],
+        [{"op": "slice", "dst": 2, "src": 0, "key": FULL}], [{"op": "slice", "dst": 2, "src": 0, "key": ["slice", 0, 3, None]}],
+        [{"op": "slice", "dst": 2, "src": 0, "key": ["slice", None, None, 1]}],
+        [{"op": "mask", "dst": 2, "src": 0, "mask": [True, True, True]}], [{"op": "select", "dst": 2, "src": 0, "names": ["a", "b"]}],
+        [{"op": "copy", "dst": 2, "src": 0}], [{"op": "T", "dst": 1, "src": 0}, {"op": "T", "dst": 2, "src": 1}],
+        [{"op": "sort", "dst": 2, "src": 0, "by": "a", "rev": False}], [{"op": "sort", "dst": 2, "src": 0, "by": "b", "rev": False}],
+        [{"op": "tarith", "dst": 2, "a": 0, "b": ["scalar", 1], "f": "mul"}],
+        [{"op": "join", "dst": 2, "L": 0, "R": 0, "kind": "inner_join"}], [{"op": "join", "dst": 2, "L": 0, "R": 0, "kind": "join"}],
+        [E, {"op": "join", "dst": 2, "L": 0, "R": 1, "kind": "join"}], [E, {"op": "join", "dst": 2, "L": 0, "R": 1, "kind": "full_join"}],
+        [E, {"op": "join", "dst": 2, "L": 1, "R": 0, "kind": "full_join"}],
+        [{"op": "aggregate", "dst": 2, "src": 0, "by": "a", "rev": False}], [{"op": "window", "dst": 2, "src": 0, "by": "a", "rev": False}],
+        [{"op": "newvec", "dst": 1, "vals": [], "name": "z"}, {"op": "stack", "dst": 2, "a": 0, "b": 1}],
+        [{"op": "newtab", "dst": 1, "cols": [], "form": "list"}, {"op": "stack", "dst": 2, "a": 0, "b": 1}],
+        [{"op": "newtab", "dst": 1, "cols": [], "form": "list"}, {"op": "stack", "dst": 2, "a": 1, "b": 0}],
+        [{"op": "stackdict", "dst": 2, "a": 0, "name": "n", "vals": [5, 6, 7]}],
+        [{"op": "getcol", "dst": 1, "t": 0, "j": 0, "how": "cols"}, {"op": "tabfrom", "dst": 2, "srcs": [1], "form": "list"}],
+        [{"op": "getcol", "dst": 1, "t": 0, "j": 0, "how": "cols"}, {"op": "setattr", "t": 0, "j": 0, "src": 1},
+         {"op": "slice", "dst": 2, "src": 0, "key": FULL}],
+    ]
+    tab_writes = [{"op": "tabwrite", "t": 2, "form": "cell", "row": 0, "col": 0, "val": 9},
+                  {"op": "tabwrite", "t": 2, "form": "rowslice", "start": 0, "stop": 2, "val": 7},
+                  {"op": "rename", "t": 2, "old": "a", "new": "r1"},
+                  {"op": "getcol", "dst": 3, "t": 2, "j": 0, "how": "cols"}]
+    tail = [{"op": "write", "r": 3, "key": ["int", 0], "val": ["scalar", 5]}, {"op": "setname", "r": 3, "name": "zz"},
+            {"op": "tabwrite", "t": 0, "form": "cell", "row": 1, "col": 0, "val": 7},
+            {"op": "tabwrite", "t": 1, "form": "cell", "row": 0, "col": 0, "val": 7}]
+    for d in tab_derives:
+        for wr in tab_writes:
+            yield {"fam": "degenerate", "steps": [T0] + d + [wr] + tail}
+    vec_derives = [
+        [E, {"op": "arith", "dst": 2, "a": 0, "b": ["scalar", 0], "f": "add"}], [{"op": "arith", "dst": 2, "a": 0, "b": ["scalar", 1], "f": "mul"}],
+        [{"op": "slice", "dst": 2, "src": 0, "key": FULL}], [{"op": "slice", "dst": 2, "src": 0, "key": ["slice", 0, 3, None]}],
+        [{"op": "mask", "dst": 2, "src": 0, "mask": [True, True, True]}], [{"op": "copy", "dst": 2, "src": 0}],
+        [{"op": "sortv", "dst": 2, "src": 0, "rev": False}], [{"op": "fillna", "dst": 2, "a": 0, "val": 0}],
+        [{"op": "unary", "dst": 1, "a": 0}, {"op": "unary", "dst": 2, "a": 1}], [{"op": "sharevec", "dst": 2, "src": 0}],
+        [{"op": "tabfrom", "dst": 1, "srcs": [0], "form": "list"}, {"op": "getcol", "dst": 2, "t": 1, "j": 0, "how": "cols"}],
+    ]
+    for d in vec_derives:
+        for wr in ({"op": "write", "r": 2, "key": ["int", 0], "val": ["scalar", 9]},
+                   {"op": "write", "r": 2, "key": ["slice", 0, 2, None], "val": ["scalar", 1.5]}, {"op": "setname", "r": 2, "name": "zz"}):
+            yield {"fam": "degenerate", "steps": [V0] + d + [wr, {"op": "write", "r": 0, "key": ["int", 1], "val": ["scalar", 7]}]}
+
+
 def generate(rng, tier):
+    for spec in degenerate_histories():
+        yield spec
     n = 2500 if tier == "quick" else 30000
     for i in range(n):
         yield {"fam": "history", "seed": rng.randrange(1 << 30), "nsteps": 12 if tier == "quick" or i % 3 else 40}
